@@ -35,6 +35,20 @@ def alphabet(version: str, thorough: bool) -> list:
     return evs
 
 
+def small_alphabet() -> list:
+    """One node, one presented child, one child that never presents itself, a node that never presents itself:
+    few events, so that long histories (presentation, report, failure, re-presentation ...) close."""
+    return [
+        [1, 255, 0, 0, 17, "2.0"],
+        [1, 3, 0, 0, 6, "d"],
+        [1, 3, 1, 0, 2, "a"],
+        [1, 4, 1, 0, 2, "a"],  # child 4 is never presented
+        [2, 3, 1, 0, 2, "a"],  # node 2 is never presented
+        [1, 3, 0, 0, 7, "e"],
+        [1, 255, 3, 0, 0, "55"],
+    ]
+
+
 class Monitor:
     def __init__(self, cfg: dict) -> None:
         self.version = cfg["version"]
@@ -43,7 +57,7 @@ class Monitor:
         self.model = R.RegistryModel()
         self.nontrivial = False
         self.last_desc = None
-        self._alpha = alphabet(self.version, self.thorough)
+        self._alpha = small_alphabet() if cfg.get("small") else alphabet(self.version, self.thorough)
         if cfg.get("parked"):
             # the application has commands parked for node 1 (asleep): received lines must still be yielded literally
             from aiomysensors.model.message import Message
@@ -145,6 +159,53 @@ def type_product_job(job):
     return n, viols
 
 
+COTENANT_SCRIPT = [
+    [1, 255, 0, 0, 17, "2.0"], [1, 3, 0, 0, 6, "d"], [1, 3, 1, 0, 2, "a"], [1, 255, 3, 0, 0, "55"], [1, 255, 3, 0, 11, "nm"], [1, 255, 3, 0, 12, "1.1"],
+    [1, 255, 3, 0, 22, "10"], [1, 3, 1, 0, 2, "b"], [1, 255, 3, 0, 32, "500"], [1, 255, 3, 0, 33, "500"], [1, 3, 2, 0, 2, ""], [1, 4, 1, 0, 2, "x"],
+    [2, 3, 1, 0, 2, "x"], [255, 255, 3, 0, 3, ""], [0, 255, 3, 0, 14, "ready"], [1, 255, 3, 0, 6, ""], [1, 255, 3, 0, 1, ""], [1, 255, 4, 0, 0, "fw"],
+    [1, 255, 0, 0, 18, "2.1"], [1, 3, 0, 0, 7, "e"], [1, 255, 3, 0, 22, "11"],
+]
+
+
+def cotenant_job(job):
+    """Two gateways in one process, one after the other, under versions A and B: B must behave exactly as a
+    B that has the process to itself (outcomes, writes, registry, whole gateway state) - differential
+    oracle, no reference model. Catches handler tables, caches and the like shared across gateways."""
+    from aiomysensors.model.message import Message
+
+    from .. import modstate
+
+    va, vb = job
+
+    def session(v):
+        s = Session(v, reset_modules=False)
+        outs = []
+        for f in COTENANT_SCRIPT:
+            outs.append(s.line(R.enc(*f).rstrip("\n")).describe())
+            if f[4] in (22, 32) and f[2] == 3:
+                outs.append(s.send(Message(1, 3, 1, 0, 2, "cmd")).describe())
+        return outs, registry_view(s.gateway.nodes), canon_gateway(s.gateway)
+
+    modstate.reset()
+    alone = session(vb)
+    modstate.reset()
+    session(va)
+    after = session(vb)
+    viols = []
+    if alone != after:
+        i = next((i for i, (a, b) in enumerate(zip(alone[0], after[0])) if a != b), None)
+        if i is not None:
+            what = f"step #{i}: alone {alone[0][i]}, after the other gateway {after[0][i]}"
+        elif alone[1] != after[1]:
+            n = next(k for k in set(alone[1]) | set(after[1]) if alone[1].get(k) != after[1].get(k))
+            a, b = alone[1].get(n) or {}, after[1].get(n) or {}
+            what = f"registry node {n}: " + "; ".join(f"{k}: alone {a.get(k)!r}, after the other gateway {b.get(k)!r}" for k in sorted(set(a) | set(b)) if a.get(k) != b.get(k))
+        else:
+            what = "internal gateway state differs"
+        viols.append((f"C04|second-gateway-in-process-differs|{vb}", f"a gateway under {vb} running the same {len(COTENANT_SCRIPT)}-line history behaves differently after a gateway under {va} ran in the same process: {what}", {"cotenant": [va, vb]}))
+    return viols
+
+
 def run(ctx: core.Ctx) -> core.Report:
     if ctx.quick:
         plan = [(v, 5 if v in ("1.4", "2.2") else 4) for v in R.VERSIONS]
@@ -164,6 +225,13 @@ def run(ctx: core.Ctx) -> core.Report:
     for k in ("states", "transitions", "nontrivial_transitions"):
         tot[k] += pres[k]
     tot["violations"] += pres["violations"]
+    sres = bfs.search_many(ctx, MOD, [{"version": v, "small": True} for v in R.VERSIONS], max_depth=8 if ctx.quick else 12)
+    for k in ("states", "transitions", "nontrivial_transitions"):
+        tot[k] += sres[k]
+    tot["per_cfg"] += sres["per_cfg"]
+    tot["violations"] += sres["violations"]
+    cres = core.pmap(cotenant_job, [(a, b) for a in R.VERSIONS for b in R.VERSIONS], ctx.workers, chunksize=1)
+    tot["violations"] += [core.Violation(k, w, rep) for r in cres for k, w, rep in r]
     tjobs = []
     for v in R.VERSIONS:
         cts = list(range(0, R.S_MAX[v] + 1)) + [R.S_MAX[v] + 1, 99, 255, -1]
@@ -179,7 +247,7 @@ def run(ctx: core.Ctx) -> core.Report:
         "type_product_cases": tcount,
         "exhaustive": False,
         "distinct_nontrivial_transitions": tot["nontrivial_transitions"],
-        "rule": "all histories up to the stated depth over the alphabet, plus a 6-step history for every child type x value type of each version's tables; non-trivial = a step referring to a missing node/child",
+        "rule": "all histories up to the stated depth over the alphabet; a 7-event alphabet around one node (presented child, never-presented child, never-presented node, re-presentations) to depth 8/12; every ordered pair of versions as two gateways in one process (the second must behave as if alone); plus a 6-step history for every child type x value type of each version's tables; non-trivial = a step referring to a missing node/child",
         "bounds": {"per_cfg": tot["per_cfg"], "alphabet_size": len(alphabet("2.2", thorough))},
         "samples": ctx.pick(tot["samples"], 3),
     }
@@ -196,4 +264,7 @@ def run(ctx: core.Ctx) -> core.Report:
 
 
 def replay(data: dict) -> dict:
+    if "cotenant" in data:
+        v = cotenant_job(tuple(data["cotenant"]))
+        return {"violated": bool(v), "violations": [{"key": k, "what": w} for k, w, _ in v]}
     return bfs.replay_history(MOD, data)
